@@ -89,7 +89,7 @@ class World(HWorld):
 
 
 def generate(rng):
-    pool = make_pool(rng)
+    pool = make_pool(rng, style="comb" if rng.random() < 0.01 else None)
     values = make_values(rng)
     probes = probe_keys(rng, pool)
     prune = rng.random() < 0.5
@@ -104,7 +104,7 @@ def generate(rng):
             pos = rng.randrange(len(cmds) + 1)
             cmds.insert(pos, {"op": "snapread", "root": rng.randrange(64), "k": hx(rng.choice(probes))})
     cmds.append({"op": "readback"})
-    return {"prop": ID, "cfg": {"prune": prune, "cache": cache, "probe": [hx(k) for k in probes]}, "cmds": cmds}
+    return {"prop": ID, "cfg": {"prune": prune, "cache": cache, "rc": rng.choice(["defaultdict", "defaultdict", "counter"]), "probe": [hx(k) for k in probes]}, "cmds": cmds}
 
 
 def execute(case, st):
